@@ -349,8 +349,8 @@ End Structure.
 
 (* the same with the handler registry and the per-archetype refresh / listener tables included:
    handler bodies cannot change which handlers exist or who listens where (C08, C15) *)
-Definition ashapeL (e : sentry) : (list N * list (key * nat) * list (N * N) * list (N * N) * list key * list (N * hlist key)) + N :=
-  match e with SOcc a => inl (a_comps a, map rshape (a_rows a), a_ins a, a_rem a, a_refresh a, a_listeners a) | SVac v => inr v end.
+Definition ashapeL (e : sentry) : (N * N * N * list N * list (key * nat) * list (N * N) * list (N * N) * list key * list (N * hlist key)) + N :=
+  match e with SOcc a => inl (a_uid a, a_cap a, a_epoch a, a_comps a, map rshape (a_rows a), a_ins a, a_rem a, a_refresh a, a_listeners a) | SVac v => inr v end.
 Definition structureL (w : world) :=
   (w_hs w, w_horder w, w_hctr w, w_glists w, w_hby w, w_cby w, w_ents w, w_comps w, map ashapeL (sl_entries (w_archs w)), sl_next (w_archs w), w_aby w).
 
@@ -382,7 +382,7 @@ Proof.
   destruct (arch_state (has_of a) q) as [st|]; [|reflexivity].
   unfold structureL, slab_get in *. cbn. destruct (nget (sl_entries (w_archs w)) ai) as [[a0|]|] eqn:Hg; try discriminate.
   inversion Ha; subst a0. f_equal. f_equal. f_equal.
-  eapply map_ashapeL_nset; [exact Hg|]. cbn [ashapeL a_comps a_ins a_rem a_rows a_refresh a_listeners set_rows]. f_equal. f_equal. f_equal. f_equal. f_equal. f_equal.
+  eapply map_ashapeL_nset; [exact Hg|]. cbn [ashapeL a_uid a_cap a_epoch a_comps a_ins a_rem a_rows a_refresh a_listeners set_rows]. f_equal. f_equal. f_equal. f_equal. f_equal. f_equal.
   destruct r as [r|].
   - destruct (nget (a_rows a) r) as [[e vals]|] eqn:Hr; [|reflexivity].
     generalize (bump_vals (fun c => ctag_zst (comp_tag w c)) (a_comps a) (amuts st) d vals) (bump_vals_length (fun c => ctag_zst (comp_tag w c)) (a_comps a) (amuts st) d vals).
